@@ -223,3 +223,7 @@ def run(ck):
     from .. import refwrites
     ck.floor("SIB/ref-writes", refwrites.check(ck, P, "SIB/ref-writes", only={"deflate.c:deflateSetDictionary", "inflate.c:inflateSetDictionary"}), 10)
     ck.assumptions += ["rustc MIR", "host target; K1"]
+
+# session 5 (round 9, D24)
+EXPLANATION = EXPLANATION + " " + (
+    'ORDER/arm-store-before-suspend: deflate() stores the initial check value of the Init arm before the arm can suspend on a full output buffer.')
